@@ -10,5 +10,5 @@ trap 'git -C /repo worktree remove --force '$wt EXIT
 echo "== clean demo"; PYTHONPATH=$wt OMP_NUM_THREADS=1 timeout 900 /venv/bin/python -W ignore $d/demo.py >/dev/null 2>&1; echo "demo exit on clean: $?"
 git -C $wt apply $d/patch.diff || { echo "patch does not apply"; exit 2; }
 echo "== mutated demo"; PYTHONPATH=$wt OMP_NUM_THREADS=1 timeout 900 /venv/bin/python -W ignore $d/demo.py >/dev/null 2>&1; echo "demo exit on mutant: $?"
-cd /verif && VERIF_REPO=$wt ./check $p --tier $tier 2>&1 | grep -E "VIOLATION|KNOWN-FINDING|^C[0-9]+ |^   " | cut -c1-400 | head -12
+cd /verif && VERIF_REPO=$wt ./check $p --tier $tier 2>&1 | grep -E "VIOLATION|KNOWN-FINDING|^C[0-9]+ |^   [^ ]" | cut -c1-400 | head -30
 echo "check exit: ${PIPESTATUS[0]}"
